@@ -5,10 +5,10 @@ from rules import locking as L
 
 
 def run(ctx):
-    M.ord16_partials_combined_in_partition_order(ctx)
-    T.tbl14_aggregate_merge_table(ctx)
-    L.flw16_offsets_count_placed_rows(ctx)
-    M.ord13_sort_structure(ctx)
+    ctx.run(M.ord16_partials_combined_in_partition_order)
+    ctx.run(T.tbl14_aggregate_merge_table)
+    ctx.run(L.flw16_offsets_count_placed_rows)
+    ctx.run(M.ord13_sort_structure)
     return ctx.finish(
         'Equality of results across batchings, compaction states, batch sizes and thread counts is a '
         'relation between runtime values and is NOT decided. Decided are four clauses of it that are '
